@@ -20,6 +20,8 @@ class Draws:
             raise ValueError("empty range for randrange()")
         k = self.rnd.random()
         z = lo if k < 0.06 else hi if k < 0.12 else self.rnd.randint(lo, hi)
+        if (lo, hi) == (0, 2 ** 20 - 1) and k > 0.85:
+            z = 16384 * self.rnd.randrange(1, 64, 2)    # random() * 10000 has exactly 2 decimals ending in 5: "%.1f" must round the tie to even
         self.log.append(z)
         return z
 
